@@ -1,0 +1,17 @@
+//go:build verif
+
+// Contracts for the deductive verifier in /verif (comment-only; compiled only with -tags verif).
+package service
+
+// End block (C13): whatever the two batch queues and the request tables contain, handling the entries due at this
+// height cannot abort. The queue iterations are taken as yielding arbitrary entries (their prefixes are sub-slices of
+// request ids, outside the key model), which is the stronger statement for "never halts".
+//@ func EndBlocker
+//@   property C13
+//@   requires height >= 0 && keeper.endBlockInv
+//@   requires k.feeCollectorName != "service_request_account" && k.feeCollectorName != "service_deposit_account"
+//@   invariant #1 inv: keeper.endBlockInv
+//@   invariant @EndBlocker$3 #1 idx: rangeindex >= 0 - 1 && rangeindex < len(providers) && len(providers) == len(requestContext.Providers)
+//@   modifies bal, supply, bindings, earned, ownerEarned, requests, contexts, activeByID, activeByB, responses, newBatch, newBatchH, expBatch, expBatchH, volumes, pricings
+//@   nopanic
+//@ end
